@@ -88,6 +88,19 @@ static void run_tree(int id, const struct xcase* c, cbor_item_t* it, const unsig
   if (ab) { for (size_t i = 0; i < OUTCAP; i++) if (i < sz) VF_ASSERT(ab[i] == EXP[i], "cbor_serialize_alloc holds exactly the encoding"); a_free(ab); }
 #endif
 
+#ifdef P_GLOBALS
+  /* C17: the whole client pipeline on thread-private data; the library's static-lifetime mutable objects are compared afterwards */
+  {
+    cbor_describe(it, stdout);
+    size_t sz = cbor_serialized_size(it);
+    unsigned char* out = vf_block(elen);
+    VF_ASSERT(cbor_serialize(it, out, elen) == elen && sz == elen, "serialize");
+    free(out);
+    cbor_item_t* cp = cbor_copy(it);
+    if (cp) { cbor_describe(cp, stdout); cbor_decref(&cp); }
+  }
+#endif
+
 #ifdef P_ROUTE
   /* C13: fixed-buffer serialization and size computation request no memory; copy / release route every block through the installed triple */
   {
@@ -159,6 +172,18 @@ static void run_tree(int id, const struct xcase* c, cbor_item_t* it, const unsig
 
 void harness(void) {
   a_install();
+#ifdef P_GLOBALS
+  _cbor_malloc_t g_m = _cbor_malloc; _cbor_realloc_t g_r = _cbor_realloc; _cbor_free_t g_f = _cbor_free;
+#ifdef DEBUG
+  bool g_a = _cbor_enable_assert;
+#endif
+#endif
   FOR_EACH_TREE(RUN)
+#ifdef P_GLOBALS
+  VF_ASSERT(_cbor_malloc == g_m && _cbor_realloc == g_r && _cbor_free == g_f, "allocator configuration is not modified by decode/build/copy/serialize/describe/release");
+#ifdef DEBUG
+  VF_ASSERT(_cbor_enable_assert == g_a, "assertion switch is not modified by the API");
+#endif
+#endif
   VF_WITNESS();
 }
